@@ -320,6 +320,8 @@ func (w *world) subscribe(ctx context.Context, spec SubSpec) *consumer {
 	return c
 }
 
+func nil2sentinel() proto.Message { return wrapperspb.Int64(sentinelVal) }
+
 func (w *world) sentinels(sc Scenario) {
 	if w.res == "value" {
 		w.val.Set(wrapperspb.Int64(sentinelVal))
@@ -343,6 +345,7 @@ type Outcome struct {
 	NoSentinel []int
 	Concurrent bool // a commit happened while an earlier commit's publication was still in flight
 	MayBeStale bool // unhooked run with several writers
+	DupAtSub   bool // a lossy seeded subscriber registered while a committed change was still to be published
 }
 
 func (o *Outcome) finish(w *world, sc Scenario, cancel context.CancelFunc) {
@@ -602,6 +605,9 @@ func runHooked(ctl *k4.Controller, sc Scenario, prefix []string, choose chooser)
 			}
 			out.Sched = append(out.Sched, pick)
 		case 's':
+			if len(flight) > 0 && !sc.Subs[n].BP && !sc.Subs[n].UO {
+				out.DupAtSub = true
+			}
 			ctl.StepWait(sth[n])
 			out.Sched = append(out.Sched, pick)
 			if atListen == n {
@@ -675,6 +681,8 @@ func judge(sc Scenario, o *Outcome, mode string) *verdict {
 				class = "stale-view"
 			} else if o.Concurrent {
 				class = "overlapping-writes-reordered"
+			} else if o.DupAtSub && !c.spec.BP && gok && !wok {
+				class = "lossy-seed-dup-cancelled"
 			}
 			sig := fmt.Sprintf("C03/%s/%s/stale-view/%s", sc.Res, mode, class)
 			if mode != "k4" {
@@ -714,7 +722,7 @@ func genScenario(rng *rand.Rand, maxWriters int) Scenario {
 			id := ids[rng.Intn(len(ids))]
 			switch k := rng.Intn(8); {
 			case k < 3:
-				prog = append(prog, WOp{K: "s", ID: id, V: int64(1 + rng.Intn(5))})
+				prog = append(prog, WOp{K: "s", ID: id, V: int64(rng.Intn(6))}) // 0 = an entirely default-valued body
 			case k < 5:
 				prog = append(prog, WOp{K: "a", ID: id, V: int64(1 + rng.Intn(2))})
 			case k < 6:
@@ -1031,6 +1039,8 @@ func main() {
 		}
 	}
 	slowMonitor(f, res, rng)
+	masksMonitor(f, res, rng)
+	dupMonitor(f, res)
 	stress(f, res, rng)
 	if err := res.Write(f.Out); err != nil {
 		lib.Fatal(err)
@@ -1132,7 +1142,7 @@ func replay(f lib.Flags) int {
 		Mode string `json:"mode"`
 		Scenario
 	}
-	if err := json.Unmarshal(raw, &in); err != nil || (len(in.Writers) == 0 && in.Mode != "lossy-slow") {
+	if err := json.Unmarshal(raw, &in); err != nil || (len(in.Writers) == 0 && in.Mode != "lossy-slow" && in.Mode != "masks" && in.Mode != "lossy-seed-dup") {
 		fmt.Println("replay: no concrete input in file (", rp.Kind, ")")
 		return 2
 	}
@@ -1147,6 +1157,37 @@ func replay(f lib.Flags) int {
 		r := runSlow(ss)
 		fmt.Printf("replay lossy slow consumer %s -> view %s, store %s, events %s\n", ss.key(), showView(r.view), showView(r.contents), strings.Join(r.events, ";"))
 		if v := judgeSlow(ss, r); v != nil {
+			fmt.Printf("STILL FAILS %s: %s (expected %s, observed %s)\n", v.sig, v.what, v.expected, v.observed)
+			return 1
+		}
+		fmt.Println("replay: property holds on this input now")
+		return 0
+	}
+	if in.Mode == "masks" {
+		var ms MaskScenario
+		if err := json.Unmarshal(raw, &ms); err != nil {
+			lib.Fatal(err)
+		}
+		if ms.Init == nil {
+			ms.Init = map[string]int{}
+		}
+		for i := 0; i < 50; i++ {
+			if v := runMasks(ms); v != nil {
+				fmt.Printf("STILL FAILS %s: %s (expected %s, observed %s)\n", v.sig, v.what, v.expected, v.observed)
+				return 1
+			}
+		}
+		fmt.Println("replay: property holds on this input now (50 repetitions)")
+		return 0
+	}
+	if in.Mode == "lossy-seed-dup" {
+		var ds DupScenario
+		if err := json.Unmarshal(raw, &ds); err != nil {
+			lib.Fatal(err)
+		}
+		ctl := k4.New(ptUpdSend, ptValSend, ptListener)
+		defer ctl.Close()
+		if v := runDup(ctl, ds); v != nil {
 			fmt.Printf("STILL FAILS %s: %s (expected %s, observed %s)\n", v.sig, v.what, v.expected, v.observed)
 			return 1
 		}
